@@ -1302,9 +1302,10 @@ fn futex_scenarios(out: &mut impl Write) {
             let (word, tids, returned) = (word.clone(), tids.clone(), returned.clone());
             hs.push(std::thread::spawn(move || {
                 tids[i].store(unsafe { libc::syscall(libc::SYS_gettid) } as i32, Ordering::SeqCst);
+                // every wait of the scenarios carries a long timeout so that a broken wake cannot hang the driver
                 let mut res;
                 loop {
-                    res = errno_of(&futex_wait(&word, 7, FutexFlags::PRIVATE, None));
+                    res = errno_of(&futex_wait(&word, 7, FutexFlags::PRIVATE, Some(TimeSpec::new(5, 0))));
                     if res != -i64::from(EINTR) {
                         break;
                     }
@@ -1338,15 +1339,15 @@ fn futex_scenarios(out: &mut impl Write) {
         let _ = futex_wake(&word, i32::MAX);
         for h in hs {
             let res = h.join().unwrap_or(-9999);
-            writeln!(out, "{{\"ev\":\"fwait\",\"sc\":\"woken\",\"word\":7,\"exp\":7,\"timeout\":false,\"res\":{res}}}").unwrap();
+            writeln!(out, "{{\"ev\":\"fwait\",\"sc\":\"woken\",\"word\":7,\"exp\":7,\"timeout\":true,\"res\":{res}}}").unwrap();
         }
     }
     // 5. wake before sleep: the word has moved on, the late waiter must not sleep
     let w = CoreAtomicU32::new(1);
     w.store(2, Ordering::SeqCst);
     let _ = futex_wake(&w, 1);
-    let r = futex_wait(&w, 1, FutexFlags::PRIVATE, None);
-    writeln!(out, "{{\"ev\":\"fwait\",\"sc\":\"late\",\"word\":2,\"exp\":1,\"timeout\":false,\"res\":{}}}", errno_of(&r)).unwrap();
+    let r = futex_wait(&w, 1, FutexFlags::PRIVATE, Some(TimeSpec::new(3, 0)));
+    writeln!(out, "{{\"ev\":\"fwait\",\"sc\":\"late\",\"word\":2,\"exp\":1,\"timeout\":true,\"res\":{}}}", errno_of(&r)).unwrap();
 }
 
 /// Free-running stress of the real lock on the real futex: every critical section takes two
@@ -1370,10 +1371,14 @@ fn mode_real(path: &str) {
     let progress = Arc::new(std::sync::atomic::AtomicU64::new(0));
     let finished = Arc::new(CoreAtomicU32::new(0));
     let results: Arc<StdMutex<Vec<String>>> = Arc::new(StdMutex::new(Vec::new()));
+    let panics = Arc::new(CoreAtomicU32::new(0));
     let mut hs = Vec::new();
     for t in 1..=threads {
         let (lock, ticket, progress, finished, results) = (lock.clone(), ticket.clone(), progress.clone(), finished.clone(), results.clone());
+        let panics = panics.clone();
         hs.push(std::thread::spawn(move || {
+          let fin2 = finished.clone();
+          let r = std::panic::catch_unwind(std::panic::AssertUnwindSafe(move || {
             let mut rng = Rng::new(seed.wrapping_mul(7919).wrapping_add(t as u64));
             let mut mine = Vec::with_capacity(sections);
             for _ in 0..sections {
@@ -1450,6 +1455,12 @@ fn mode_real(path: &str) {
             }
             results.lock().unwrap().extend(mine);
             finished.fetch_add(1, Ordering::SeqCst);
+          }));
+          if r.is_err() {
+              // a panic of the code under test is data: the thread counts as finished, the end event says so
+              panics.fetch_add(1, Ordering::SeqCst);
+              fin2.fetch_add(1, Ordering::SeqCst);
+          }
         }));
     }
     // watchdog: no section completed for 20 s while threads are still inside = hang
@@ -1477,7 +1488,8 @@ fn mode_real(path: &str) {
         }
         writeln!(
             out,
-            "{{\"ev\":\"stress_end\",\"hang\":true,\"threads\":{threads},\"sections\":{sections},\"completed\":{done},\"finished_threads\":{}}}",
+            "{{\"ev\":\"stress_end\",\"hang\":true,\"panics\":{},\"threads\":{threads},\"sections\":{sections},\"completed\":{done},\"finished_threads\":{}}}",
+            panics.load(Ordering::SeqCst),
             finished.load(Ordering::SeqCst)
         )
         .unwrap();
@@ -1490,13 +1502,18 @@ fn mode_real(path: &str) {
     for l in results.lock().unwrap().iter() {
         writeln!(out, "{l}").unwrap();
     }
-    let fin = match &*lock {
-        LockObj::M(m) => *m.lock(),
-        LockObj::R(r) => *r.read(),
+    let np = panics.load(Ordering::SeqCst);
+    let fin = if np > 0 {
+        0 // a panicked holder may have left the lock taken: do not touch it again
+    } else {
+        match &*lock {
+            LockObj::M(m) => *m.lock(),
+            LockObj::R(r) => *r.read(),
+        }
     };
     writeln!(
         out,
-        "{{\"ev\":\"stress_end\",\"hang\":false,\"threads\":{threads},\"sections\":{sections},\"completed\":{},\"final\":{fin}}}",
+        "{{\"ev\":\"stress_end\",\"hang\":false,\"panics\":{np},\"threads\":{threads},\"sections\":{sections},\"completed\":{},\"final\":{fin}}}",
         progress.load(Ordering::Relaxed)
     )
     .unwrap();
